@@ -14,9 +14,12 @@ EXPLANATION = ('_integrate loop under contract with a dependency (non-interferen
                'state (so it is a function of those two states and the record distance only); other rows are the current '
                'state; the flag word is the union of what was raised, so extra-data output = plain rows + flagged rows. The '
                'loop bound depends on the requested range only through the exit test (post-condition).')
-TEXT = ('per-step non-interference and the row-construction contracts are proved; the whole-trajectory corollary (same row at '
-        'the same distance for two different requests) is their induction over the steps and is exercised by a bounded '
-        'stand-in; recorded finding D16 (step > range: terminal row) is listed under C03')
+TEXT = ('per-step non-interference (dependency clause), the invariant "the integration step is the one the calculator was '
+        'initialised with", the row-construction contracts and what trajectory()/fire() pass to the integrator are proved; '
+        'the whole-trajectory corollary (same row at the same distance for two different requests) is their induction over '
+        'the steps and is exercised by a bounded stand-in; one recorded finding (C11-substep-recording: a recording step '
+        'below the integration step skips rows) is printed as KNOWN-FINDING; the step > range terminal row is recorded '
+        'under C03')
 NOT_DECIDED = ['RECORDED FINDING C11-substep-recording (known_findings.json, re-checked on every run): with a recording step '
                'below the integration step at most one row per integration step is produced and the row at the requested '
                'range is lost, so such a card is not a superset of a coarser one',
